@@ -230,6 +230,28 @@ func runC12(p *Program, r *Result) {
 
 	// ---- R12.4
 	// ---- R12.6: the payload is what follows the header whatever reader the caller supplied
+	r.Rule("R12.7", "a Read of the decrypting and de-armoring readers never reports `0, nil` for a non-empty buffer: callers (the STREAM end-of-file probe among them) take a nil error for data, so an empty success in between changes the outcome with the read schedule", 2)
+	for _, rm := range [][2]string{{pkgStream, "Reader"}, {pkgArmor, "armoredReader"}} {
+		fn := p.Func(rm[0], rm[1], "Read")
+		if fn == nil {
+			continue
+		}
+		r.Saw(fn.String())
+		ftb := p.TB(fn)
+		bad := ""
+		for _, vr := range virtualReturns(fn) {
+			if len(vr.Results) != 2 || !isNilConst(vr.Results[1]) {
+				continue
+			}
+			if k, isK := constInt(vr.Results[0]); isK && k == 0 {
+				_, emptyBuf := findFact(ftb.FactsAt(vr.Block), func(a Atom) bool { return short(a.String()) == "len(P1) == 0" })
+				if !emptyBuf {
+					bad = r.pos(vr.Ret)
+				}
+			}
+		}
+		r.Check(bad == "", fn.String(), "empty-success", bad, "no return of (0, nil) outside the empty-buffer case", "Read can return 0 bytes with a nil error although the caller's buffer is not empty")
+	}
 	r.Rule("R12.6", "the bytes the header parser read ahead are handed back in front of the payload, for buffered and unbuffered sources alike (= R07.3)", 2)
 	if pf := r.anchor(pkgFormat, "", "Parse"); pf != nil {
 		var succ []*ssa.Return
